@@ -274,9 +274,31 @@ def rule_g(repo, chk):
         chk.ob('C05.g', ok, l, 'a parameter is selected by equality of its string_name with the keyword\'s text', str([norm(c) for c in cmp_]))
 
 
+def rule_h(repo, chk):
+    chk.clause('C05.h', 'names bound under a `global` statement are connected whatever binds them (assignment, def, class, import, for): in '
+                        '_find_global_variables a defining name is passed over only when it has no tree name or its module has no global filter')
+    f = repo.find(REFS, '_find_global_variables')
+    lp = [n for n in own_nodes(f) if isinstance(n, ast.For) and norm(n.iter) == 'names']
+    chk.floor('C05.h', len(lp), 1, 'loop over the defining names in _find_global_variables')
+    from ..lib import dominating_facts
+    for l in lp:
+        v = norm(l.target)
+        for j in loop_escapes(l):
+            if isinstance(j, ast.Continue) and any(isinstance(a, ast.ExceptHandler) for a in repo.ancestors(j)):
+                continue        # except AttributeError: the root context has no global filter
+            facts = [(norm(e), pol) for e, pol in dominating_facts(f, j)]
+            ok = isinstance(j, ast.Continue) and facts == [('%s.tree_name is None' % v, True)]
+            chk.ob('C05.h', ok, j, 'a defining name is skipped only because it has no tree name', 'skipped under %s' % facts)
+        ys = [y for y in ast.walk(l) if isinstance(y, (ast.Yield, ast.YieldFrom))]
+        chk.ob('C05.h', len(ys) >= 2, l, 'the global names and the names of their contexts are yielded')
+        for y in ys:
+            extra = [(norm(e), pol) for e, pol in dominating_facts(f, y) if 'api_type' in norm(e) or 'type' in norm(e).split('.')[-1:]]
+            chk.ob('C05.h', not extra, y, 'no test of the kind of binding in front of the yield', str(extra))
+
+
 def describe(chk):
     chk.undecided('behaviour preservation of the renamed program, the partition property of get_references, the byte round trip (all run-time); '
                   'which modules are candidates (get_module_contexts_containing_name)')
 
 
-RULES = [('C05.a', rule_a), ('C05.b', rule_b), ('C05.c', rule_c), ('C05.d', rule_d), ('C05.e', rule_e), ('C05.f', rule_f), ('C05.g', rule_g)]
+RULES = [('C05.a', rule_a), ('C05.b', rule_b), ('C05.c', rule_c), ('C05.d', rule_d), ('C05.e', rule_e), ('C05.f', rule_f), ('C05.g', rule_g), ('C05.h', rule_h)]
